@@ -239,7 +239,7 @@ def subprocess_runs(chk, n):
                 f.write(text)
             for argv in (["check", "m." + LC.EXT[lang]], ["scan", "."]):
                 r = subprocess.run(["/venv/bin/python", "-m", "codelimit"] + argv, cwd=d, env=env, capture_output=True,
-                                   text=True, timeout=120)
+                                   text=True, timeout=600)
                 chk.evaluations += 1
                 chk.count("cli " + argv[0])
                 ok_codes = (0, 1) if argv[0] == "check" else (0,)
